@@ -25,6 +25,14 @@ def run(tier):
         for L in ([1, 2, 4] if quick else [1, 2, 3, 4, 8]):
             plans.append(dict(name="budget", fam=fam, algo=algo, budget=L, steps=4 if quick else 5, sim=(25, 12) if quick else (800, 20),
                               cap=130 if quick else None, mc=not quick or L == 4))
+    # the sensor-mule wrapper around spray-and-wait: a copy the wrapped algorithm sets aside for a sensor node is not transmitted and
+    # has to come back (the wrapper reports the transmission as failed), whatever the wrapped algorithm picks
+    PS = ["p1", "s1", "s2"]
+    fams = dict(peers=PS, enabled=BASIC,
+                cat={"m1": attr("app", "far"), "m2": attr("app", "s1"), "m3": attr("p1", "far", prev="p1")})
+    for L in ([2, 4] if quick else [2, 3, 4, 8]):
+        plans.append(dict(name="mule", fam=fams, algo="mule_spray", budget=L, steps=4 if quick else 5, sim=(25, 12) if quick else (600, 18),
+                          cap=130 if quick else None, mc=not quick or L == 4))
     total, st = run_families(chk, "C18", plans, tier)
     own_violations(chk, "C18")
     chk.cov["traces_validated_against_impl"] = total
